@@ -258,6 +258,14 @@ impl DirEntry {
             }
             stream_len = 0;
         }
+        // An empty stream has no sector chain, whatever its starting sector
+        // field says: some CFB implementations leave zero (or garbage) there
+        // rather than END_OF_CHAIN.  Treating that value as the start of a
+        // chain would make writes to the empty stream land in sectors that
+        // belong to other streams.
+        if obj_type == ObjType::Stream && stream_len == 0 {
+            start_sector = consts::END_OF_CHAIN;
+        }
 
         Ok(DirEntry {
             name,
